@@ -70,37 +70,36 @@ func NoSelfAliasing(a *SearchCriteria) bool {
 //@ func (criteria *SearchCriteria) And(other *SearchCriteria)
 //@   props C19:post,pre@call
 //@   requires criteria != nil && other != nil && criteria != other
-//@   requires noListAliasing(criteria, other)
-//@   requires criteria.Larger >= 0 && other.Larger >= 0 && criteria.Smaller >= 0 && other.Smaller >= 0
-//@   ensures forall size int64 :: matchLarger(size, criteria.Larger) == (matchLarger(size, old(criteria.Larger)) && matchLarger(size, other.Larger))
-//@   ensures forall size int64 :: matchSmaller(size, criteria.Smaller) == (matchSmaller(size, old(criteria.Smaller)) && matchSmaller(size, other.Smaller))
+//@   ensures old(criteria.Larger) >= 0 && other.Larger >= 0 && old(criteria.Smaller) >= 0 && other.Smaller >= 0 ==> forall size int64 :: matchLarger(size, criteria.Larger) == (matchLarger(size, old(criteria.Larger)) && matchLarger(size, other.Larger))
+//@   ensures old(criteria.Larger) >= 0 && other.Larger >= 0 && old(criteria.Smaller) >= 0 && other.Smaller >= 0 ==> forall size int64 :: matchSmaller(size, criteria.Smaller) == (matchSmaller(size, old(criteria.Smaller)) && matchSmaller(size, other.Smaller))
 //@   ensures forall d time.Time :: matchSince(d, criteria.Since) == (matchSince(d, old(criteria.Since)) && matchSince(d, other.Since))
 //@   ensures forall d time.Time :: matchBefore(d, criteria.Before) == (matchBefore(d, old(criteria.Before)) && matchBefore(d, other.Before))
 //@   ensures forall d time.Time :: matchSince(d, criteria.SentSince) == (matchSince(d, old(criteria.SentSince)) && matchSince(d, other.SentSince))
 //@   ensures forall d time.Time :: matchBefore(d, criteria.SentBefore) == (matchBefore(d, old(criteria.SentBefore)) && matchBefore(d, other.SentBefore))
 //@   ensures len(criteria.Flag) == old(len(criteria.Flag)) + len(other.Flag)
-//@   ensures forall k int :: 0 <= k && k < old(len(criteria.Flag)) ==> criteria.Flag[k] == old(criteria.Flag[k])
-//@   ensures forall k int :: 0 <= k && k < len(other.Flag) ==> criteria.Flag[old(len(criteria.Flag))+k] == old(other.Flag[k])
+//@   ensures old(noListAliasing(criteria, other)) ==> forall k int :: 0 <= k && k < old(len(criteria.Flag)) ==> criteria.Flag[k] == old(criteria.Flag[k])
+//@   ensures old(noListAliasing(criteria, other)) ==> forall k int :: 0 <= k && k < len(other.Flag) ==> criteria.Flag[old(len(criteria.Flag))+k] == old(other.Flag[k])
 //@   ensures len(criteria.NotFlag) == old(len(criteria.NotFlag)) + len(other.NotFlag)
-//@   ensures forall k int :: 0 <= k && k < old(len(criteria.NotFlag)) ==> criteria.NotFlag[k] == old(criteria.NotFlag[k])
-//@   ensures forall k int :: 0 <= k && k < len(other.NotFlag) ==> criteria.NotFlag[old(len(criteria.NotFlag))+k] == old(other.NotFlag[k])
+//@   ensures old(noListAliasing(criteria, other)) ==> forall k int :: 0 <= k && k < old(len(criteria.NotFlag)) ==> criteria.NotFlag[k] == old(criteria.NotFlag[k])
+//@   ensures old(noListAliasing(criteria, other)) ==> forall k int :: 0 <= k && k < len(other.NotFlag) ==> criteria.NotFlag[old(len(criteria.NotFlag))+k] == old(other.NotFlag[k])
 //@   ensures len(criteria.Body) == old(len(criteria.Body)) + len(other.Body)
-//@   ensures forall k int :: 0 <= k && k < old(len(criteria.Body)) ==> criteria.Body[k] == old(criteria.Body[k])
-//@   ensures forall k int :: 0 <= k && k < len(other.Body) ==> criteria.Body[old(len(criteria.Body))+k] == old(other.Body[k])
+//@   ensures old(noListAliasing(criteria, other)) ==> forall k int :: 0 <= k && k < old(len(criteria.Body)) ==> criteria.Body[k] == old(criteria.Body[k])
+//@   ensures old(noListAliasing(criteria, other)) ==> forall k int :: 0 <= k && k < len(other.Body) ==> criteria.Body[old(len(criteria.Body))+k] == old(other.Body[k])
 //@   ensures len(criteria.Text) == old(len(criteria.Text)) + len(other.Text)
-//@   ensures forall k int :: 0 <= k && k < old(len(criteria.Text)) ==> criteria.Text[k] == old(criteria.Text[k])
-//@   ensures forall k int :: 0 <= k && k < len(other.Text) ==> criteria.Text[old(len(criteria.Text))+k] == old(other.Text[k])
+//@   ensures old(noListAliasing(criteria, other)) ==> forall k int :: 0 <= k && k < old(len(criteria.Text)) ==> criteria.Text[k] == old(criteria.Text[k])
+//@   ensures old(noListAliasing(criteria, other)) ==> forall k int :: 0 <= k && k < len(other.Text) ==> criteria.Text[old(len(criteria.Text))+k] == old(other.Text[k])
 //@   ensures len(criteria.Header) == old(len(criteria.Header)) + len(other.Header)
-//@   ensures forall k int :: 0 <= k && k < old(len(criteria.Header)) ==> criteria.Header[k] == old(criteria.Header[k])
-//@   ensures forall k int :: 0 <= k && k < len(other.Header) ==> criteria.Header[old(len(criteria.Header))+k] == old(other.Header[k])
+//@   ensures old(noListAliasing(criteria, other)) ==> forall k int :: 0 <= k && k < old(len(criteria.Header)) ==> criteria.Header[k] == old(criteria.Header[k])
+//@   ensures old(noListAliasing(criteria, other)) ==> forall k int :: 0 <= k && k < len(other.Header) ==> criteria.Header[old(len(criteria.Header))+k] == old(other.Header[k])
 //@   ensures len(criteria.SeqNum) == old(len(criteria.SeqNum)) + len(other.SeqNum)
-//@   ensures forall k int :: 0 <= k && k < old(len(criteria.SeqNum)) ==> __same(criteria.SeqNum[k], old(criteria.SeqNum[k]))
-//@   ensures forall k int :: 0 <= k && k < len(other.SeqNum) ==> __same(criteria.SeqNum[old(len(criteria.SeqNum))+k], old(other.SeqNum[k]))
+//@   ensures old(noListAliasing(criteria, other)) ==> forall k int :: 0 <= k && k < old(len(criteria.SeqNum)) ==> __same(criteria.SeqNum[k], old(criteria.SeqNum[k]))
+//@   ensures old(noListAliasing(criteria, other)) ==> forall k int :: 0 <= k && k < len(other.SeqNum) ==> __same(criteria.SeqNum[old(len(criteria.SeqNum))+k], old(other.SeqNum[k]))
 //@   ensures len(criteria.UID) == old(len(criteria.UID)) + len(other.UID)
-//@   ensures forall k int :: 0 <= k && k < old(len(criteria.UID)) ==> __same(criteria.UID[k], old(criteria.UID[k]))
-//@   ensures forall k int :: 0 <= k && k < len(other.UID) ==> __same(criteria.UID[old(len(criteria.UID))+k], old(other.UID[k]))
+//@   ensures old(noListAliasing(criteria, other)) ==> forall k int :: 0 <= k && k < old(len(criteria.UID)) ==> __same(criteria.UID[k], old(criteria.UID[k]))
+//@   ensures old(noListAliasing(criteria, other)) ==> forall k int :: 0 <= k && k < len(other.UID) ==> __same(criteria.UID[old(len(criteria.UID))+k], old(other.UID[k]))
 //@   ensures len(criteria.Not) == old(len(criteria.Not)) + len(other.Not)
 //@   ensures len(criteria.Or) == old(len(criteria.Or)) + len(other.Or)
+//@   ensures old(criteria.Larger) >= 0 && other.Larger >= 0 && old(criteria.Smaller) >= 0 && other.Smaller >= 0 ==> criteria.Larger >= 0 && criteria.Smaller >= 0
 //@   ensures old(criteria.ModSeq) == nil && other.ModSeq != nil ==> criteria.ModSeq != nil && *criteria.ModSeq == *other.ModSeq
 //@   ensures old(criteria.ModSeq) != nil && other.ModSeq == nil ==> criteria.ModSeq == old(criteria.ModSeq)
 //@   ensures old(criteria.ModSeq) != nil && other.ModSeq != nil && old(criteria.ModSeq.MetadataName) == other.ModSeq.MetadataName && old(criteria.ModSeq.MetadataType) == other.ModSeq.MetadataType ==> criteria.ModSeq != nil && criteria.ModSeq.ModSeq >= old(criteria.ModSeq.ModSeq) && criteria.ModSeq.ModSeq >= other.ModSeq.ModSeq
